@@ -21,6 +21,7 @@ func checkC07(c *Ctx) {
 	c07BlockSelection(c)
 	c07ScopePushPop(c)
 	c07VarsEntry(c)
+	c07CollectLoops(c)
 	c.NotCovered("that a reported traversal has the right steps; equality of diagnostics under a pruned scope")
 	c.NotCovered("hand-built ASTs whose ObjectConsKeyExpr literal-key condition differs between Value and walkChildNodes")
 }
@@ -1717,7 +1718,6 @@ func c07VarsEntry(c *Ctx) {
 	c.Floor("vars.entry returns", n, 1, "hcldec.Variables")
 }
 
-
 // the method that reports the variables a spec needs: func(*hcl.BodyContent) []hcl.Traversal
 func isVarsNeededSig(sig *types.Signature) bool {
 	if sig.Params().Len() != 1 || sig.Results().Len() != 1 {
@@ -1741,4 +1741,72 @@ func isVisitChildrenSig(sig *types.Signature) bool {
 		return false
 	}
 	return isNamed(cb.Params().At(0).Type(), modPath+"/hcldec", "Spec")
+}
+
+// R10 vars.everyitem: a loop that collects variable traversals visits every item.
+func c07CollectLoops(c *Ctx) {
+	c.Rule("R10 vars.everyitem: in hcldec, ext/dynblock and hclsyntax (variables.go), a loop that appends to a []hcl.Traversal result is left only through its header (when the range is exhausted): no break or return inside the loop body can cut the collection short, so a traversal that is filtered out never hides the traversals after it")
+	n := 0
+	for _, fn := range c.P.pkgFuncs("hcldec", "ext/dynblock", "hclsyntax") {
+		file := c.P.Position(fn.Pos())
+		if strings.HasPrefix(file, "hclsyntax/") && !strings.HasPrefix(file, "hclsyntax/variables.go") {
+			continue
+		}
+		for _, scc := range sccBlocks(fn.Blocks, nil) {
+			if len(scc) < 2 {
+				continue
+			}
+			in := map[*ssa.BasicBlock]bool{}
+			for _, b := range scc {
+				in[b] = true
+			}
+			collects := token.NoPos
+			for _, b := range scc {
+				for _, ins := range b.Instrs {
+					if call, ok := ins.(*ssa.Call); ok {
+						if bi, ok := call.Call.Value.(*ssa.Builtin); ok && bi.Name() == "append" {
+							if sl, ok := call.Type().Underlying().(*types.Slice); ok && isNamed(sl.Elem(), modPath, "Traversal") {
+								collects = call.Pos()
+							}
+						}
+					}
+				}
+			}
+			if collects == token.NoPos {
+				continue
+			}
+			var header *ssa.BasicBlock
+			for _, b := range scc {
+				for _, p := range b.Preds {
+					if !in[p] {
+						header = b
+					}
+				}
+			}
+			n++
+			c.Sites++
+			c.Fn(FuncName(fn))
+			bad := token.NoPos
+			for _, b := range scc {
+				if b == header {
+					continue
+				}
+				for _, su := range b.Succs {
+					if !in[su] {
+						for _, x := range b.Instrs {
+							if x.Pos() != token.NoPos {
+								bad = x.Pos()
+							}
+						}
+						if bad == token.NoPos {
+							bad = collects
+						}
+					}
+				}
+			}
+			c.Check(bad == token.NoPos, "vars.everyitem", FuncName(fn)+":loop", collects, "left only when the items are exhausted",
+				"the loop that collects variable traversals can be left from its body (break or return at "+c.P.Position(bad)+"): the traversals after that item are not reported")
+		}
+	}
+	c.Floor("vars.everyitem loops", n, 3, "exprWrap.Variables, the dynblock walkers, hcldec variable collection")
 }
